@@ -583,6 +583,32 @@ def opGUARD : P String := do
     let a ← tok; let b ← nat
     pure (match Guard.rollOutcomeGuard (a = 1) b with | .ok _ => "accept" | .error x => showGErr x)
 
+/-- the arguments of `SUBST` / `SUBSTSPEC`: family, per-member tables aligned with the faces,
+coalesce mode, start index, depth -/
+def substArgs : P (List (Hist Int) × (Nat → Int → SubAct) × Bool × Nat × Nat) := do
+  let fam ← listOf hist
+  let tbls ← listOf (listOf (do let k ← tok; let v ← tok; pure (if k = 0 then SubAct.out v else SubAct.hist v.toNat)))
+  let add ← tok
+  let start ← nat
+  let n ← nat
+  let tbl (j : Nat) (f : Int) : SubAct :=
+    let faces := (fam.getD j []).map Prod.fst
+    let row := tbls.getD j []
+    match faces.idxOf? f with
+    | some i => row.getD i (.out f)
+    | none => .out f
+  pure (fam, tbl, add = 1, start, n)
+
+def opSUBST : P String := do
+  let (fam, tbl, add, start, n) ← substArgs
+  match (substEval (n + 1) fam tbl add start (some (.int n)) none).1 with
+  | .ok r => pure (showHistAll r)
+  | .error e => pure ("err " ++ showEvalErr e)
+
+def opSUBSTSPEC : P String := do
+  let (fam, tbl, add, start, n) ← substArgs
+  pure (showHistAll (lowestTerms leI (substSpec fam tbl add start n start)))
+
 def dispatch (op : String) : P String :=
   match op with
   | "RWC" => opRWC
@@ -613,6 +639,8 @@ def dispatch (op : String) : P String :=
   | "DENVALS" => opDENVALS
   | "ROLLRECS" => opROLLRECS
   | "EXPLODESPEC" => opEXPLODESPEC
+  | "SUBST" => opSUBST
+  | "SUBSTSPEC" => opSUBSTSPEC
   | "OSTAT" => opOSTAT
   | "EXK" => opEXK
   | "APPEAR" => opAPPEAR
